@@ -1,7 +1,8 @@
 (* Control-plane model: the compiled migration-sync round.
    Fault-free: every migration a proxy reports is sent to the broker for commit (exactly once then follows from
    CtrlProofsMain.commit_exactly_once). *)
-From UM Require Import Base.BytesDef Model.Ctrl Proofs.CtrlProofsInv Proofs.CtrlProofsMain Proofs.CtrlProofsRound.
+From UM Require Import Base.BytesDef Model.Ctrl Proofs.CtrlProofsInv Proofs.CtrlProofsMain Proofs.CtrlProofsRound
+  Proofs.CtrlProofsOrder.
 From Coq Require Import ZifyBool ZifyNat ZifyN.
 
 Definition commits_reports (evs : list event) : Prop :=
@@ -129,6 +130,103 @@ Theorem mig_round_commits_all : forall k addrs n s,
   queue_free k s -> commits_reports (fst (fst (mig_round served ff k addrs n s))).
 Proof. intros. apply mig_round_ff_facts. assumption. Qed.
 
+(* ---------- the compiled rounds never abandon a migration (no BrokerCancel event), whatever the call faults ---------- *)
+Definition no_cancel (evs : list event) : Prop := forall ids, ~ In (BrokerCancel ids) evs.
+
+Lemma no_cancel_app : forall e1 e2, no_cancel e1 -> no_cancel e2 -> no_cancel (e1 ++ e2).
+Proof. intros e1 e2 H1 H2 ids H. apply in_app_or in H. destruct H; [eapply H1 | eapply H2]; eauto. Qed.
+
+Lemma no_cancel_cons_app : forall x l r, no_cancel (x :: l) -> no_cancel r -> no_cancel (x :: l ++ r).
+Proof. intros x l r H1 H2. change (x :: l ++ r) with ((x :: l) ++ r). apply no_cancel_app; assumption. Qed.
+
+Lemma no_cancel_of_all : forall x evs, no_cancel evs -> no_cancel_of x evs = true.
+Proof.
+  intros x evs H. unfold no_cancel_of. apply forallb_forall. intros ev Hin.
+  destruct ev; try reflexivity. exfalso. eapply H; eauto.
+Qed.
+
+Section Shape.
+Variable sc : script.
+Hypothesis NI : no_inject sc.
+
+Lemma send_call_nc : forall k n s, no_cancel (fst (send_call served sc k n s)).
+Proof.
+  intros k n s. unfold send_call. rewrite NI. cbn [app].
+  destruct (sc_fault sc n); cbn [fst]; intros ids H; cbn in H; intuition discriminate.
+Qed.
+
+Lemma sync_proxy_nc : forall k d n s, no_cancel (fst (fst (sync_proxy served sc k d n s))).
+Proof.
+  intros k d n s ids H. apply (sync_proxy_events served sc NI) in H.
+  destruct H as [H | [H | [x [y H]]]]; try discriminate. eapply send_call_nc; eauto.
+Qed.
+
+Lemma sync_migration_nc : forall k a m n s, no_cancel (fst (fst (sync_migration served sc k a m n s))).
+Proof.
+  intros k a m n s. unfold sync_migration, commit_call. rewrite NI. cbn [app].
+  assert (E0 : forall l, (forall ev, In ev l -> ev = Commit (m_id m) \/ ev = CoordinatorCrash k) -> no_cancel (Report a m :: l)).
+  { intros l Hl ids [H | H]; [discriminate|]. destruct (Hl _ H); subst; discriminate. }
+  destruct (sc_fault sc n); cbn [fst];
+    try (apply E0; intros ev Hev; cbn in Hev; intuition).
+  all: match goal with
+       | |- context [sync_proxy served sc ?kk ?dd ?nn ?ss] =>
+         pose proof (sync_proxy_nc kk dd nn ss) as Hd;
+         destruct (sync_proxy served sc kk dd nn ss) as [[ed nd] od]
+       end; cbn [fst] in Hd;
+       destruct od;
+       try (cbn [fst]; apply no_cancel_cons_app; [apply E0; intros ev Hev; cbn in Hev; intuition | exact Hd]).
+  all: match goal with
+       | |- context [sync_proxy served sc ?kk ?dd ?nn ?ss] =>
+         pose proof (sync_proxy_nc kk dd nn ss) as Hs;
+         destruct (sync_proxy served sc kk dd nn ss) as [[es ns] os]
+       end; cbn [fst] in Hs |- *;
+       apply no_cancel_cons_app; [apply E0; intros ev Hev; cbn in Hev; intuition | apply no_cancel_app; assumption].
+Qed.
+
+Lemma sync_migrations_nc : forall ms k a n s, no_cancel (fst (fst (sync_migrations served sc k a ms n s))).
+Proof.
+  induction ms as [|m ms IH]; intros k a n s; cbn [sync_migrations]; [intros ids []|].
+  pose proof (sync_migration_nc k a m n s) as H1.
+  destruct (sync_migration served sc k a m n s) as [[e1 n1] o1]. cbn [fst] in H1.
+  destruct o1; try exact H1.
+  pose proof (IH k a n1 (run e1 s)) as H2.
+  destruct (sync_migrations served sc k a ms n1 (run e1 s)) as [[e2 n2] o2]. cbn [fst] in *.
+  apply no_cancel_app; assumption.
+Qed.
+
+Lemma check_and_sync_nc : forall k a n s, no_cancel (fst (fst (check_and_sync served sc k a n s))).
+Proof.
+  intros k a n s. unfold check_and_sync. rewrite NI.
+  destruct (sc_fault sc n); cbn [fst app]; try (intros ids H; cbn in H; intuition discriminate).
+  all: pose proof (sync_migrations_nc (sc_reports sc n) k a (S n) (run [] s)) as H;
+       destruct (sync_migrations served sc k a (sc_reports sc n) (S n) (run [] s)) as [[e1 n1] o1]; exact H.
+Qed.
+
+Lemma mig_round_from_nc : forall addrs k n s, no_cancel (fst (fst (mig_round_from served sc k addrs n s))).
+Proof.
+  induction addrs as [|a addrs IH]; intros k n s; cbn [mig_round_from]; [intros ids []|].
+  pose proof (check_and_sync_nc k a n s) as H1.
+  destruct (check_and_sync served sc k a n s) as [[e1 n1] o1]. cbn [fst] in H1.
+  destruct o1;
+    try (pose proof (IH k n1 (run e1 s)) as H2;
+         destruct (mig_round_from served sc k addrs n1 (run e1 s)) as [[e2 n2] o2]; cbn [fst] in *;
+         apply no_cancel_app; assumption).
+  exact H1.
+Qed.
+
+Lemma mig_round_nc : forall k addrs n s, no_cancel (fst (fst (mig_round served sc k addrs n s))).
+Proof.
+  intros k addrs n s. unfold mig_round, listing. rewrite NI.
+  destruct (sc_fault sc n); cbn [fst app]; try (intros ids H; cbn in H; intuition discriminate).
+  all: pose proof (mig_round_from_nc addrs k (S n) (run [] s)) as H;
+       destruct (mig_round_from served sc k addrs (S n) (run [] s)) as [[e1 n1] o1]; exact H.
+Qed.
+
+End Shape.
+
+Lemma ff_no_inject : no_inject ff.
+Proof. intros n st. reflexivity. Qed.
+
 (* one complete fault-free migration-sync round: every reported migration that was pending is committed exactly once *)
 Theorem mig_round_exactly_once : forall k addrs n s a m,
   Inv served s -> queue_free k s ->
@@ -138,7 +236,8 @@ Theorem mig_round_exactly_once : forall k addrs n s a m,
 Proof.
   intros k addrs n s a m I Hq evs Hr Hp.
   apply commit_exactly_once_inv; auto.
-  eapply mig_round_commits_all; eauto.
+  - eapply mig_round_commits_all; eauto.
+  - apply no_cancel_of_all. apply (mig_round_nc ff ff_no_inject).
 Qed.
 
 End Mig.
